@@ -2,7 +2,7 @@
 # usage: confirm_seed.sh <property> <n> <worktree>
 # Confirms a sub-agent's change: applies to a clean worktree, whole test suite
 # passes, demo fails with the change and passes without it.
-P=$1; N=$2; WT=$3; D=/tmp/seed-$P/$N
+P=$1; N=$2; WT=$3; D=${SEEDROOT:-/tmp/seed}-$P/$N
 set -e
 git -C $WT checkout -q -- . ; git -C $WT status --short | head -3
 git -C $WT apply $D/patch.diff
